@@ -224,13 +224,34 @@ def cudd_env(L):
     return e
 
 
+# variable order of the stub ZDD library: level -> variable index
+ZPERM = {'invperm': [0, 1, 2]}
+
+
 def zdd_env(L):
     e = {}
     e['Cudd_Ref'] = L.ref
     e['Cudd_RecursiveDerefZdd'] = lambda mgr, n: L.deref(n)
     e['Cudd_RecursiveDeref'] = lambda mgr, n: L.deref(n)
     e['Cudd_Deref'] = L.deref
-    e['Cudd_ReadZddOne'] = lambda mgr, i: F
+    # CUDD: `Cudd_ReadZddOne(dd, i)` returns `dd->univ[i]` (NULL for
+    # i < 0, the constant ONE for i >= size): the family in which the
+    # variables at the *levels* above i are absent and those from level
+    # i down are free.  The current order is `ZPERM['invperm']`
+    # (level -> variable index).
+    def _zdd_one(mgr, i):
+        if i < 0:
+            return L.null
+        t = F
+        for level, j in enumerate(ZPERM['invperm']):
+            if level < i:
+                t &= ~tt.var(N, j) & F
+        return t
+    e['Cudd_ReadZddOne'] = _zdd_one
+    e['Cudd_ReadInvPermZdd'] = lambda mgr, level: (
+        ZPERM['invperm'][level] if 0 <= level < N else -1)
+    e['Cudd_ReadPermZdd'] = lambda mgr, j: (
+        ZPERM['invperm'].index(j) if 0 <= j < N else -1)
     e['Cudd_ReadZero'] = lambda mgr: 0
     e['Cudd_IsConstant'] = lambda a: a in (0, F)
     e['Cudd_zddDiff'] = lambda m, a, b: L.result(a & ~b)
@@ -433,6 +454,84 @@ class Model:
             except NotReached as e:
                 self.not_reached.append(f'{mgr_cls}.{m}: {e}')
         self.mgr = Manager()
+
+    def extend_for_json_load(self):
+        """What `dd._copy.load_json` needs from a `dd.cudd.BDD`:
+        `find_or_add`, `_add_int` and the int <-> node conversions are
+        transliterated from the source; the views `negated`, `ref`,
+        `level`, `~u`, `int(u)`, the constants and the declaration
+        calls are given their documented meaning here (variables x, y, z
+        in this order; dynamic reordering off)."""
+        if self.name != 'cudd':
+            raise NotReached('json load: cudd only')
+        env, L, Manager, Function = self.env, self.L, self.Manager, \
+            self.Function
+        model = self
+        blo, bhi = find_class(self.lines, self.mgr_cls)
+        for m in ('_ddref_to_int', '_int_to_ddref'):
+            src = transliterate_c(extract(self.lines, m, top=True))
+            exec(compile('from __future__ import annotations\n' + src,
+                         f'<cudd.{m}>', 'exec'), env)
+            self.sources[m] = src
+            self.reached.append(m)
+        for m in ('find_or_add', '_add_int'):
+            src = transliterate_c(extract(self.lines, m, blo, bhi))
+            exec(compile('from __future__ import annotations\n' + src,
+                         f'<cudd.{m}>', 'exec'), env)
+            setattr(Manager, m, env[m])
+            self.sources[f'BDD.{m}'] = src
+            self.reached.append(f'BDD.{m}')
+        env['stdint'] = None
+        CONST = 1 << 20
+
+        def _top(node):
+            s_ = sup(node)
+            return min(s_) if s_ else CONST
+        Function.negated = property(
+            lambda f: bool(env['Cudd_IsComplement'](f.node)))
+        Function.level = property(lambda f: _top(f.node))
+        def _lib_ref(f):
+            # CUDD's counter of the (regular) node: external references
+            # plus one per edge from a live parent node (the stub library
+            # does not store edges, so these are recomputed)
+            n_ = f.node
+            c = L.count.get(n_, 0) + L.count.get(~n_ & F, 0)
+            seen = set()
+            for w, k_ in L.count.items():
+                if k_ <= 0 or w in (0, F):
+                    continue
+                w = w if not env['Cudd_IsComplement'](w) else ~w & F
+                if w in seen or w in (n_, ~n_ & F):
+                    continue
+                seen.add(w)
+                j = _top(w)
+                for b_ in (0, 1):
+                    ch = tt.cof(w, N, j, b_)
+                    if ch in (n_, ~n_ & F):
+                        c += 1
+            return c
+        Function.ref = property(_lib_ref)
+        Function.__invert__ = lambda f: model.wrap(f.bdd, ~f.node & F)
+        Function.__int__ = lambda f: env['_ddref_to_int'](f.node)
+        Function.__eq__ = lambda f, g: (g is not None and
+                                        f.node == g.node)
+        Function.__hash__ = lambda f: hash(f.node)
+        Manager.true = property(lambda b: model.wrap(b, F))
+        Manager.false = property(lambda b: model.wrap(b, 0))
+
+        def _declare(b, *names):
+            for x in names:
+                if x not in NAMES:
+                    raise ValueError(x)
+        Manager.declare = _declare
+
+        def _reorder(b, order=None):
+            if order is not None and dict(order) != {
+                    x: j for j, x in enumerate(NAMES)}:
+                raise NotReached('json load: identity order only')
+        Manager.reorder = _reorder
+        Manager.assert_consistent = lambda b: True
+        Manager.level_of_var = lambda b, x: NAMES.index(x)
 
     # -- helpers
     def fn(self, t):
